@@ -228,7 +228,7 @@ def check(prog, rep):
     limit_rule(prog, rep)
     window_rounding(prog, rep)
     peewee_clip(prog, rep)
-    rep.floor("C03 obligations", len(rep.obligations), 30)
+    rep.floor("C03 obligations", len(rep.obligations), 22)
 
 
 SQ = "aw_datastore/storages/sqlite.py"
